@@ -78,7 +78,7 @@ func specNameIs(nm [8]byte, tab []byte, s string) bool {
 }
 
 //@ func (*CoffFormat).convertNameToBytes
-//@ props C08 C09 C13
+//@ props C08 C09 C13 C10
 //@ requires stringTable != nil && offsetMap != nil
 //@ requires using(tablen, tabptr) len(stringTable.Bytes()) < 1<<30
 //@ requires using(tab, tabptr, tablen) specStrTabOK(stringTable.Bytes(), offsetMap)
@@ -192,7 +192,7 @@ func specNamesSmall(l []string) bool {
 }
 
 //@ func (*CoffFormat).generateSymbolEntries
-//@ props C08 C09 C13
+//@ props C08 C09 C13 C10
 //@ requires ctx != nil
 //@ requires[A14] specNamesSmall(ctx.GlobalSymbolList) && specNamesSmall(ctx.ExternSymbolList)
 //@ loop 0 invariant[sec] using(sec) len(allEntries) == 1+iter && iter <= 3
@@ -269,7 +269,7 @@ func specRecords(es []SymbolEntry, k int) uint32 {
 }
 
 //@ func (*CoffFormat).Write
-//@ props C08 C09 C13 C19
+//@ props C08 C09 C13 C19 C10
 //@ requires c != nil && ctx != nil
 //@ requires[A14] specNamesSmall(ctx.GlobalSymbolList) && specNamesSmall(ctx.ExternSymbolList)
 //@ requires[A17] len(ctx.MachineCode) < 1<<30
